@@ -103,4 +103,18 @@ def apply() -> None:
         for ta, tb in ((SymbolicInt, Integral), (Integral, SymbolicInt), (SymbolicInt, SymbolicInt)):
             bl._BIN_OPS_SEARCH_ORDER.append((op, ta, tb, fn))
     bl._BIN_OPS.clear()
+
+    # 3. formatting: f-strings / format() of a symbolic number would realise it (one path per value);
+    #    the library and the harnesses only format such values into log / exception / report text.
+    import crosshair.core as core
+
+    _stock_format = core._PATCH_REGISTRATIONS.get(format, bl._format)
+
+    def _format(obj, format_spec=''):  # type: ignore[no-untyped-def]
+        with NoTracing():
+            if isinstance(obj, (bl.SymbolicInt, bl.SymbolicFloat, bl.SymbolicBool)):
+                return '<sym>'
+        return _stock_format(obj, format_spec)
+
+    core._PATCH_REGISTRATIONS[format] = _format
     _done = True
